@@ -10,6 +10,7 @@ They are stated once in `Feems.Pchip` and re-exported under the three properties
 C06 (efficiency characteristics), C07 (consumption and power-split characteristics), C09 (emission curves).
 -/
 import FeemsProofs.Lemmas.PchipLemmas
+import FeemsModel.Model.Component
 
 set_option linter.unusedVariables false
 
@@ -147,4 +148,60 @@ theorem efficiency_curve_within {pts : List (Rat × Rat)} (h2 : 2 ≤ pts.length
     ∃ v, curve pts t = .ok v ∧ lo ≤ v ∧ v ≤ hi := curve_within h2 ha hy h0 h1
 theorem efficiency_curve_through_points {pts : List (Rat × Rat)} (h2 : 2 ≤ pts.length) (ha : Accepted pts)
     {p : Rat × Rat} (hp : p ∈ pts) : curve pts p.1 = .ok p.2 := Feems.Pchip.curve_through_points h2 ha hp
+
+/-! #### The interpolated inverse, computed by the model (`Comp.invTable`)
+
+`interp_inverse_partial` (C06.lean) needed a *contract* about the interpolant — it passes through the
+samples and is monotone between them — which was an assumption about scipy.  With the interpolant inside
+the model the contract is a theorem: the three statements below have no hypothesis about the interpolant
+at all, only the constructor's own test (`tableMonotoneB`: the 200 samples of the forward map rise). -/
+open Feems.Comp
+
+theorem table_strict {η : Rat → Rat} {rated : Rat} (h : tableMonotoneB η rated = true) :
+    StrictOn 200 (knotIn η rated) := by
+  intro i hi
+  unfold tableMonotoneB at h
+  simp only [List.all_eq_true, List.mem_range, decide_eq_true_eq] at h
+  exact h i (by omega)
+
+theorem knotOut_rising {rated : Rat} (hr : 0 < rated) (i : Nat) : knotOut rated i ≤ knotOut rated (i + 1) := by
+  unfold knotOut; push_cast; linarith [div_pos hr (by norm_num : (0:Rat) < 100)]
+
+/-- **At every sample the interpolated inverse is exact**: handing the inverse the supply side of sample
+`k` returns the delivered power of sample `k`. -/
+theorem inverse_exact_at_samples {η : Rat → Rat} {rated : Rat} (h : tableMonotoneB η rated = true)
+    {k : Nat} (hk : k < 200) : invTable η rated (knotIn η rated k) = knotOut rated k :=
+  eval_knot (knotOut rated) (table_strict h) hk (by norm_num)
+
+/-- **The interpolated inverse never falls** over the range of the table: more supplied, not less delivered. -/
+theorem inverse_monotone {η : Rat → Rat} {rated : Rat} (hr : 0 < rated) (h : tableMonotoneB η rated = true)
+    {a b : Rat} (h0 : knotIn η rated 0 ≤ a) (hab : a ≤ b) (h1 : b ≤ knotIn η rated 199) :
+    invTable η rated a ≤ invTable η rated b :=
+  eval_monotone (knotOut rated) (table_strict h) (by norm_num) (fun i _ => knotOut_rising hr i) h0 hab h1
+
+/-- **The interpolated inverse is within one sample spacing (1 % of the rating) of the exact inverse**, over
+the whole table, for every characteristic the constructor accepts — `interp_inverse_partial` with the
+knot contract discharged.  `e` is the exact inverse of the forward map (it takes the supply side of every
+sample to its delivered power and never falls).  The property's 0.5 % is not reached by this bound; it
+stays validated per case (and D16 / D118 are where it fails). -/
+theorem interp_inverse_modelled {η : Rat → Rat} {rated : Rat} (hr : 0 < rated) (h : tableMonotoneB η rated = true)
+    (e : Rat → Rat) (heknot : ∀ i, i < 200 → e (knotIn η rated i) = knotOut rated i)
+    (hemono : ∀ a b, a ≤ b → e a ≤ e b) {v : Rat}
+    (h0 : knotIn η rated 0 ≤ v) (h1 : v ≤ knotIn η rated 199) :
+    |invTable η rated v - e v| ≤ rated / 100 := by
+  obtain ⟨k, hk, l, r, lo, hi⟩ := eval_between (knotOut rated) (table_strict h) (by norm_num) h0 h1
+  have rise := knotOut_rising hr k
+  rw [min_eq_left rise] at lo; rw [max_eq_right rise] at hi
+  have e1 := hemono _ _ l; have e2 := hemono _ _ r
+  rw [heknot k (by omega)] at e1; rw [heknot (k + 1) hk] at e2
+  have sp : knotOut rated (k + 1) - knotOut rated k = rated / 100 := by unfold knotOut; push_cast; ring
+  unfold invTable
+  rw [abs_le]; constructor <;> linarith
+
+/-- The hypotheses are satisfiable: a 100 kW component with a constant 90 % passes the constructor's test, and
+its interpolated inverse returns 45 kW for the 50 kW that sample 145 draws. -/
+example : tableMonotoneB (fun _ => 9 / 10) 100 = true ∧ knotIn (fun _ => 9 / 10) 100 145 = 50 ∧
+    invTable (fun _ => 9 / 10) 100 50 = 45 := by
+  refine ⟨by decide +kernel, by decide +kernel, by decide +kernel⟩
+
 end Feems.Props.C06
